@@ -83,6 +83,20 @@ TRANSLATORS.update({
 })
 TRANSLATORS["C03"] = TRANSLATORS["C04"] = TRANSLATORS["C01"]
 TRANSLATORS["C20"] = TRANSLATORS["C02"]
+_INPUTS = ("; harness/py2v_inputs.py (census of string-keyed lookups and the "
+           "dispatch footprint in wsgi.py / request.py -> gen/InputsGen.v, "
+           "judged by model/Inputs.v)")
+for _id in ("C02", "C12", "C20"):
+    TRANSLATORS[_id] = TRANSLATORS[_id] + _INPUTS
+TRANSLATORS["C05"] += ("; harness/py2v_hdrwrites.py (census of the places "
+                       "that name a response header -> "
+                       "gen/HeaderWritesGen.v, judged by "
+                       "model/HeaderWrites.v)")
+TRANSLATORS["C10"] += ("; harness/py2v_reads.py (census of the places that "
+                       "consume an input stream -> gen/ReadSitesGen.v, "
+                       "judged by model/ReadSites.v)")
+TRANSLATORS["C17"] += ("; the same plugin lists the request-time methods of "
+                       "Application and their writes through self")
 
 
 def sh(cmd, timeout, cwd=None, env=None):
